@@ -293,6 +293,10 @@ PROFILES = {
     'idle_timeouts': dict(nb=[2, 2, 3], ntypes=[1, 2], handlers_per_bus=[2, 3, 3], p_wild=0.6, p_sync=0.05, short_timeouts=(0.5, [0.05, 0.1, 0.15, 0.5]), long_p=0.6,
                           p_pause=0.45, p_dawait=0.25, p_gap=0.25, p_dispatch=0.05, p_yield=0.0, prog_len=[1, 1, 2, 2], max_depth=[1, 2], caller_idle_p=0.7, ncallers=[2, 3],
                           caller_len=[2, 3, 4], p_caller_await=0.2),
+    # the same with forwarding: the bus that becomes idle is one that had forwarded the interrupted event (F26 on the cancelled path)
+    'idle_timeouts_fwd': dict(nb=[2, 3, 3], fwd='some', ntypes=[1, 2], handlers_per_bus=[2, 3, 3], p_wild=0.6, p_sync=0.05, short_timeouts=(0.5, [0.05, 0.1, 0.15, 0.5]), long_p=0.6,
+                              p_pause=0.45, p_dawait=0.25, p_gap=0.25, p_dispatch=0.05, p_yield=0.0, prog_len=[1, 1, 2, 2], max_depth=[1, 2], caller_idle_p=0.7, ncallers=[2, 3],
+                              caller_len=[2, 3, 4], p_caller_await=0.2),
     'idle_race': dict(nb=[1, 2], caller_idle_p=0.6, ncallers=[2, 3], p_caller_await=0.3, p_raise=0.05),
     'idle_dead_loop': dict(nb=[1, 2], p_cancel_runloop=0.5, caller_idle_p=0.7, ncallers=[1, 2], caller_len=[2, 3, 4], p_caller_await=0.0, p_raise_cancelled=0.12, p_dawait=0.1, p_dispatch=0.2),
 }
